@@ -1309,6 +1309,19 @@ class Interp:
                             st.facts.add(("some_rel", dest, (vals[1][0], "<=", vals[0][0])))
                     if base == "Add" and vals[0][0] is not None and vals[1][1] is not None and vals[1][1] >= 0:
                         st.rel.add((vals[0][0], "<=", ns))
+                    if base == "Add" and rng[0] == 0 and vals[0][0] is not None and vals[1][0] is not None:
+                        # a + b cannot overflow when this path knows b <= z - a (or a <= z - b) for a difference that was
+                        # itself computed in the same unsigned type: then a + b <= z
+                        for (x_, op_, y_) in list(st.rel):
+                            if op_ not in ("<=", "<") or y_ not in self.syms:
+                                continue
+                            dd_ = self.syms[y_].defn
+                            if not dd_ or dd_[0] not in ("bin", "math") or dd_[1] != "Sub" or self.syms[y_].ty != ity:
+                                continue
+                            if (x_ == vals[1][0] and dd_[3] == vals[0][0]) or (x_ == vals[0][0] and dd_[3] == vals[1][0]):
+                                st.facts.add(("variant", dest, "Some"))
+                                st.rel.add((ns, "<=", dd_[2])) if dd_[2] is not None else None
+                                break
                 return "pure"
             if meth in ("saturating_add", "saturating_sub", "saturating_mul", "wrapping_add", "wrapping_sub", "wrapping_mul") and len(vals) == 2:
                 base = {"add": "Add", "sub": "Sub", "mul": "Mul"}[meth.split("_")[1]]
